@@ -124,6 +124,20 @@ def helper(cfg, crate, rep):
         cs = calls_of(t)
         ok = any(c.endswith("Time::from_hms") for c in cs) and places(t) == {"dt"}
         parts = sorted(c.split("::")[-1] for c in cs)
+        fh = None
+        def findc(x):
+            x = core(x)
+            if isinstance(x, CallV):
+                if x.callee.endswith("Time::from_hms"):
+                    return x
+                for a in x.args:
+                    r = findc(a)
+                    if r is not None:
+                        return r
+            return None
+        fh = findc(t)
+        order = [core(a).r() for a in fh.args] if fh is not None else None
+        ok = ok and order == ["time::OffsetDateTime::hour(dt)", "time::OffsetDateTime::minute(dt)", "time::OffsetDateTime::second(dt)"]
         ok = ok and all(x in parts for x in ("hour", "minute", "second")) and not any(x in parts for x in ("nanosecond", "millisecond", "microsecond", "from_hms_nano", "from_hms_milli", "from_hms_micro"))
     rep.ob("C09.nanos", "%s|dt_strip_nanos" % cfg, ok, "truncation keeps date, offset, hour, minute, second of the same value and drops the sub-second part", found=v.r()[:200])
     rep.sample({"rule": "C09", "cfg": cfg, "utc_when": F.show(cu), "generalized_when": F.show(cg), "utc_value": core(utc[0][2]["args"][0]).r(), "gen_value": core(gen[0][2]["args"][0]).r()})
